@@ -146,6 +146,9 @@ func TestVerifC19Archives(t *testing.T) {
 	base := t.TempDir()
 	idx := 0
 	outcomes := map[string]int{}
+	deadline := verifkit.Deadline(120*time.Second, 25*time.Minute)
+	stopped := false
+	thirdNames := map[string]bool{"bin": true, "../x": true, "a/../../x": true, "sentinel.txt": true, "../sentinel.txt": true, "./../outside/file": true}
 	var run func(seq []tarEntry)
 	run = func(seq []tarEntry) {
 		if len(seq) > 0 {
@@ -212,8 +215,16 @@ func TestVerifC19Archives(t *testing.T) {
 			return
 		}
 		for _, e := range alphabet {
-			if len(seq) >= 1 && depth == 3 && e.Type != tar.TypeReg && e.Type != tar.TypeSymlink && len(seq) == 2 {
-				continue // third entries: regular files and symlinks only (keeps depth 3 tractable)
+			if depth == 3 && len(seq) == 2 && (e.Type != tar.TypeReg && e.Type != tar.TypeSymlink || !thirdNames[e.Name]) {
+				continue // third entries: regular files and symlinks over the escaping names only (keeps depth 3 tractable)
+			}
+			if stopped {
+				return
+			}
+			if idx%512 == 0 && time.Now().After(deadline) {
+				stopped = true
+				rep.Cap(fmt.Sprintf("wall-clock budget reached after %d archives of the enumeration", idx))
+				return
 			}
 			run(append(append([]tarEntry{}, seq...), e))
 		}
